@@ -129,7 +129,7 @@ def gen_instance(rng, sw=None, thorough=False):
     n1 = rng.randint(1, 5 if thorough else 4)
     n2 = rng.randint(1, 4)
     shape = sw.get('shape') or rng.choice(
-        ['small'] * 8 + ['many-projects', 'many-students'])
+        ['small'] * 16 + ['many-projects', 'many-students', 'wide-both'])
     if shape == 'many-projects':       # two-digit project / lecturer ids
         n2 = rng.randint(9, 12)
     n3 = rng.randint(1, 3) if na == 3 else n2
@@ -137,6 +137,10 @@ def gen_instance(rng, sw=None, thorough=False):
         n3 = rng.randint(n2, n2 + 2)      # more lecturers than projects
     if shape == 'many-students':       # two-digit student ids, short lists
         n1 = rng.randint(8, 10)
+    if shape == 'wide-both':           # two-digit ids on both sides
+        n1 = rng.randint(11, 12)
+        n2 = rng.randint(11, 12)
+        n3 = rng.randint(1, 3) if na == 3 else n2
     if shape == 'big':                 # real-CBC lane at scale, no enumeration
         n1 = rng.randint(10, 24)
         n2 = rng.randint(5, 12)
@@ -147,8 +151,8 @@ def gen_instance(rng, sw=None, thorough=False):
     students = []
     for i in range(n1):
         k = rng.randint(0 if rng.random() < 0.25 else 1, maxlen)
-        if shape == 'many-students':
-            k = min(k, 1)              # keeps the assignment space <= 2^10
+        if shape in ('many-students', 'wide-both'):
+            k = min(k, 1)              # keeps the assignment space <= 2^12
         elif shape == 'many-projects':
             k = min(k, 2) if n1 > 3 else k
         pl = rng.sample(range(1, n2 + 1), k)
